@@ -7,6 +7,7 @@ import (
 	"fmt"
 	"math"
 	"sort"
+	"sync/atomic"
 
 	"github.com/Tom-Johnston/mamba/ints"
 	"github.com/Tom-Johnston/mamba/sortints"
@@ -558,6 +559,70 @@ func runC17(c *Ctx) {
 		}
 	})
 	c.SetCount("extreme_magnitude_sets", int64(len(extSets)))
+	// NewSortedInts / Add on every argument list of length <= 3 over the extreme magnitudes (spans that do not fit an int)
+	{
+		var extLists [][]int
+		stringsOverInts(ext, 3, func(l []int) { extLists = append(extLists, append([]int{}, l...)) })
+		c.parFor(int64(len(extLists)), 16, func(lo, hi int64) {
+			for _, l := range extLists[lo:hi] {
+				sc := siCase{Fn: "NewSortedInts", Args: l}
+				c.Check(func() *Failure { return evalSI(sc) })
+				sc2 := siCase{Fn: "Add", A: []int{-1, 0, 1}, Args: l, CapA: len(l)}
+				c.Check(func() *Failure { return evalSI(sc2) })
+				if len(l) >= 2 {
+					c.Nontrivial(1)
+				}
+			}
+		})
+		c.SetCount("extreme_magnitude_argument_lists", int64(len(extLists)))
+	}
+	// very unequal sizes (implementations switch to searching the small set in the large one): large structured sets
+	// against every 1-, 2- and (thinned) 3-element subset of their value range widened by one
+	{
+		var larges [][]int
+		for _, n := range []int{33, 64, 65, 66, 97, 130} {
+			ev := make([]int, n)
+			full := make([]int, n)
+			gaps := make([]int, n)
+			for i := 0; i < n; i++ {
+				ev[i] = 2 * i
+				full[i] = i - 3
+				gaps[i] = i + (i/7)*3
+			}
+			larges = append(larges, ev, full, gaps)
+		}
+		var uneq int64
+		c.parFor(int64(len(larges)), 1, func(lo, hi int64) {
+			for _, L := range larges[lo:hi] {
+				lo0, hi0 := L[0]-1, L[len(L)-1]+1
+				var smalls [][]int
+				for x := lo0; x <= hi0; x++ {
+					smalls = append(smalls, []int{x})
+					for y := x + 1; y <= hi0; y++ {
+						if y-x <= 6 || (x+y)%11 == 0 {
+							smalls = append(smalls, []int{x, y})
+						}
+						if y-x <= 3 {
+							for z := y + 1; z <= y+3 && z <= hi0; z++ {
+								smalls = append(smalls, []int{x, y, z})
+							}
+						}
+					}
+				}
+				for _, S := range smalls {
+					for _, fn := range []string{"Union", "Intersection", "IntersectionSize", "SetMinus", "XOR", "ContainsSorted", "UnionMethod"} {
+						for _, ord := range [][2][]int{{L, S}, {S, L}} {
+							sc := siCase{Fn: fn, A: ord[0], B: ord[1], CapA: len(S) % 2}
+							c.Check(func() *Failure { return evalSI(sc) })
+							c.Nontrivial(1)
+						}
+					}
+				}
+				atomic.AddInt64(&uneq, int64(len(smalls)))
+			}
+		})
+		c.SetCount("unequal_size_pairs", uneq)
+	}
 	// Range with larger spans and steps
 	for _, rc := range []rangeCase{{0, 100, 1}, {0, 100, 7}, {100, 0, -7}, {-50, 50, 13}, {50, -50, -13}, {0, 1000, 999}, {0, 1000, 1000}, {0, 1000, 1001}, {1000, 0, -1000}, {1000, 0, -1001}, {7, 8, 1}, {8, 7, -1}} {
 		rc := rc
